@@ -102,10 +102,16 @@ def run(tier):
             spell.append((name + " b", own + "p b", None))
             spell.append((name + "(a1-3)Gal", own + "(a1-3)Gal", None))
             spell.append((name + "(b1-4)Glc", own + "p(b1-4)Glc", None))
+            # ... and on the open forms, alone and as reducing end in the three linkage notations
+            for sfx_ in ("-ol", "-onic", "-aric"):
+                spell.append((name + sfx_, own + sfx_, None))
+            spell.append((f"Gal(b1-4){name}-ol", f"Gal(b1-4){own}-ol", None))
+            spell.append((f"Gal(b1-4){name}-ol", f"Galb1-4{own}-ol", None))
+            spell.append((f"Gal(b1-4){name}-ol", f"Galb4{own}-ol", None))
         spell.append((name + " a", name + "a", None))
         spell.append((name + " b", name + "pb", None))
     if tier == "quick":
-        spell = r.sample(spell, 120)
+        spell = r.sample(spell, 160) + [x for x in spell if x[0].startswith('Ido') or x[0].endswith('Ido-ol')]
     # ... and inside whole glycans: the reducing-end anomer as suffix or after a blank, the own series and 'p' on inner
     # residues; in particular glycans in which the reducing-end sugar occurs again, bound with the other anomer
     whole = []
@@ -157,7 +163,7 @@ def run(tier):
         report.fail({"site": "proof", "kind": "obligation-broken"},
                     {"no_failing_input": True, "what_no_longer_checks": broken, "theorems": names_thm})
     report.assumptions = ["molecule identity is Iso.same_molecule (extracted Coq)"]
-    extra = {"rule": "every connection form (anomer a/b/? x child position written or not x parent positions) on aldose and 2-ketose children, compared as edge labels (against the model and the specification) and as molecules; random trees in full / parenthesis-free / short notation; spelled-out defaults for every library code and inside whole glycans (reducing-end anomer as suffix / after a blank with the same sugar bound by the other anomer elsewhere; 'p' and own series on inner residues)",
+    extra = {"rule": "every connection form (anomer a/b/? x child position written or not x parent positions) on aldose and 2-ketose children, compared as edge labels (against the model and the specification) and as molecules; random trees in full / parenthesis-free / short notation; spelled-out defaults for every library code and inside whole glycans (reducing-end anomer as suffix / after a blank with the same sugar bound by the other anomer elsewhere; 'p' and own series on inner residues; own series on open forms -ol / -onic / -aric, alone and as reducing end in the three notations)",
              "edge_labels_compared": n_edges, "print_assumptions": res.assumptions.get(f"Props/{PROP}.v", "").strip().splitlines()[-4:]}
     return report.finish("proof", ob, dis, names_thm, trusted=C.TRUSTED, extra=extra)
 
